@@ -25,7 +25,7 @@ Sign == {"+", "-"}
 ExpMark == {"e", "E"}
 EOF == "EOF"
 
-ByteLen(c) == CASE c \in {"DEG", "MU", "NBSP", "EACUTE"} -> 2
+ByteLen(c) == CASE c \in {"DEG", "MU", "OMEGA", "NBSP", "EACUTE"} -> 2
                 [] c \in {"EMSP", "CJK"} -> 3
                 [] c = "EMOJI" -> 4
                 [] OTHER -> 1
